@@ -11,7 +11,7 @@ import (
 
 func init() {
 	core.Register(&core.Property{
-		ID: "C02",
+		ID:   "C02",
 		Rule: "data frames from the frame generator (all 4 data MTypes, FOpts 0..15, FPort absent/0/>0, payloads up to the 242-byte limit so messages span 1..16 CMAC blocks) x random 128-bit keys x MAC version 1.0/1.1 x confFCnt/txDR/txCh incl. boundary values; Set*DataMIC output is compared with an independent RFC 4493 CMAC over the spec's own B0/B1 blocks and the spec model's own serialisation; then one perturbation round per frame changes each authenticated and each excluded input alone and Validate* must answer exactly what the model says for the perturbed inputs. Distinct = (direction, version, ACK, message-length block class, perturbation class).",
 		Assumptions: []string{
 			"crypto/aes of the Go standard library is trusted; the CMAC on top of it is the harness' own RFC 4493 implementation (the library uses jacobsa/crypto/cmac)",
